@@ -8,6 +8,8 @@
 \*
 \* One action per observable step of the real commands (harness/props/xferproto.py records exactly these from the real
 \* cmd_send.send() / cmd_receive.receive() through a recording proxy around the wormhole object each of them creates):
+\*   Code(p, t)      get_code() fired on that side; t is what the side has told its user to run on the other computer by then:
+\*                   "code" (a command line that names the code), "zero" (a command line with -0 and no code), "-" (nothing)
 \*   Verifier(p, r)  get_verifier() fired ("ok") or failed with WrongPasswordError ("wrong")
 \*   Prompt(p, a)    input() was called and answered (S: "Verifier ... ok?"; R: "ok? (Y/n)")
 \*   Send(p, k)      send_message() with a dict whose key is k: "transit" | "offer" | "answer" | "error"
@@ -17,8 +19,13 @@
 EXTENDS Naturals, Sequences, FiniteSets, TLC
 
 Modes == {"text", "file", "dir"}
-Configs == {[mode |-> m, verify |-> v, sanswer |-> sa, accept |-> a, match |-> mt, exists |-> ex] :
-              m \in Modes, v \in BOOLEAN, sa \in {"yes", "no"}, a \in {"flag", "yes", "no"}, mt \in BOOLEAN, ex \in BOOLEAN}
+\* flow: how the two sides come by their code.  "given": both are given it (--code X / receive X);  "salloc": the sender
+\* allocates one and prints the command line for the receiving user, who runs *that*;  "ralloc": `receive --allocate` prints the
+\* command line for the sending user;  "zero": both say -0 (the code is "0-", no code is printed);  "zeromix": only the
+\* sender says -0 and the receiver was given a real code on nameplate 0 (they do not match)
+Flows == {"given", "salloc", "ralloc", "zero", "zeromix"}
+Configs == {[mode |-> m, verify |-> v, sanswer |-> sa, accept |-> a, match |-> mt, exists |-> ex, flow |-> fl] :
+              m \in Modes, v \in BOOLEAN, sa \in {"yes", "no"}, a \in {"flag", "yes", "no"}, mt \in BOOLEAN, ex \in BOOLEAN, fl \in Flows}
 
 VARIABLES cfg,       \* the configuration of this run (never changes)
           pc,        \* [S |-> .., R |-> ..] where each command is
@@ -27,18 +34,37 @@ VARIABLES cfg,       \* the configuration of this run (never changes)
           prompted,  \* [S |-> "-" | answer, R |-> ...]
           printed,   \* the receiver has printed the text
           out,       \* [S |-> "-" | outcome, R |-> ...]
+          told,      \* [S |-> "-" | "code" | "zero", R |-> ...] the command line that side has printed for the other user
           last
-vars == <<cfg, pc, inbox, sent, prompted, printed, out, last>>
+vars == <<cfg, pc, inbox, sent, prompted, printed, out, told, last>>
 
 Other(p) == IF p = "S" THEN "R" ELSE "S"
 Init == /\ cfg \in Configs
-        /\ pc = [S |-> "wait_ver", R |-> "wait_ver"]
+        /\ (cfg.flow = "zeromix" => ~cfg.match)
+        /\ (cfg.flow \in {"salloc", "ralloc", "zero"} => cfg.match)       \* (the other user runs what was printed)
+        /\ pc = [S |-> "code", R |-> "code"] /\ told = [S |-> "-", R |-> "-"]
         /\ inbox = [S |-> <<>>, R |-> <<>>] /\ sent = [S |-> <<>>, R |-> <<>>]
         /\ prompted = [S |-> "-", R |-> "-"] /\ printed = FALSE /\ out = [S |-> "-", R |-> "-"]
         /\ last = <<"Init", "-", "-">>
 
 Goto(p, where) == pc' = [pc EXCEPT ![p] = where]
-Keep == UNCHANGED <<cfg, inbox, sent, prompted, printed, out>>
+Keep == UNCHANGED <<cfg, inbox, sent, prompted, printed, out, told>>
+
+\* ---- the code ------------------------------------------------------------------------------------------------------------
+\* cmd_send always prints a command line for the other user (with the code, or with -0 and without one) before it waits for
+\* the key; cmd_receive prints one only when it allocated the code itself.  A side that runs a printed command line cannot
+\* start before that line exists.
+Tells(p) == IF p = "S" THEN (IF cfg.flow \in {"zero", "zeromix"} THEN "zero" ELSE "code")
+            ELSE (IF cfg.flow = "ralloc" THEN "code" ELSE "-")
+Code(p) ==
+  /\ pc[p] = "code"
+  /\ (cfg.flow = "salloc" /\ p = "R") => told.S # "-"
+  /\ (cfg.flow = "zero" /\ p = "R") => told.S # "-"
+  /\ (cfg.flow = "ralloc" /\ p = "S") => told.R # "-"
+  /\ told' = [told EXCEPT ![p] = Tells(p)]
+  /\ Goto(p, "wait_ver")
+  /\ last' = <<"Code", p, Tells(p)>>
+  /\ UNCHANGED <<cfg, inbox, sent, prompted, printed, out>>
 
 \* ---- key confirmation ------------------------------------------------------------------------------------------------
 Verifier(p) ==
@@ -57,7 +83,7 @@ Prompt(p) ==
      /\ prompted' = [prompted EXCEPT ![p] = a]
      /\ Goto(p, IF a = "yes" THEN (IF p = "S" THEN "send_first" ELSE "send_answer") ELSE "send_error")
      /\ last' = <<"Prompt", p, a>>
-  /\ UNCHANGED <<cfg, inbox, sent, printed, out>>
+  /\ UNCHANGED <<cfg, inbox, sent, printed, out, told>>
 
 \* ---- sending ---------------------------------------------------------------------------------------------------------------
 SendKind(p) ==
@@ -82,7 +108,7 @@ Send(p) ==
      /\ inbox' = [inbox EXCEPT ![Other(p)] = Append(@, k)]
      /\ Goto(p, AfterSend(p))
      /\ last' = <<"Send", p, k>>
-  /\ UNCHANGED <<cfg, prompted, printed, out>>
+  /\ UNCHANGED <<cfg, prompted, printed, out, told>>
 
 \* ---- receiving -----------------------------------------------------------------------------------------------------------
 \* the sender's loop: error -> TransferError; transit -> more hints; answer -> the transfer (or, for a text, done)
@@ -105,7 +131,7 @@ Recv(p) ==
      /\ Goto(p, AfterRecv(p, k))
      /\ printed' = (printed \/ (p = "R" /\ k = "offer" /\ cfg.mode = "text"))
      /\ last' = <<"Recv", p, k>>
-  /\ UNCHANGED <<cfg, sent, prompted, out>>
+  /\ UNCHANGED <<cfg, sent, prompted, out, told>>
 
 \* ---- finishing --------------------------------------------------------------------------------------------------------------
 \* the transit phase (FileXfer.tla's business) is one step: a side comes out of it once the other has entered it
@@ -120,9 +146,9 @@ Done(p) ==
   /\ out' = [out EXCEPT ![p] = Outcome(p)]
   /\ Goto(p, "finished")
   /\ last' = <<"Done", p, Outcome(p)>>
-  /\ UNCHANGED <<cfg, inbox, sent, prompted, printed>>
+  /\ UNCHANGED <<cfg, inbox, sent, prompted, printed, told>>
 
-Next == \E p \in {"S", "R"} : Verifier(p) \/ Prompt(p) \/ Send(p) \/ Recv(p) \/ Done(p)
+Next == \E p \in {"S", "R"} : Code(p) \/ Verifier(p) \/ Prompt(p) \/ Send(p) \/ Recv(p) \/ Done(p)
 Spec == Init /\ [][Next]_vars /\ WF_vars(Next)
 
 \* ---- properties ----------------------------------------------------------------------------------------------------------------
@@ -141,6 +167,11 @@ WrongCodeSilent == ~cfg.match => (sent.S = <<>> /\ sent.R = <<>> /\ ~printed
 AskedWhenDue == (prompted.R # "-") => (cfg.mode # "text" /\ ~cfg.exists /\ cfg.accept # "flag")
 \* an error message makes both commands fail
 ErrorMeansFailure == (InSeq("error", sent.S) \/ InSeq("error", sent.R)) => (out.S # "ok" /\ out.R # "ok")
+\* a code is never printed in zero mode, and nobody who was given the code tells it to anybody... except cmd_send, which always
+\* prints the command line; a side never gets to key confirmation without its code
+ZeroPrintsNoCode == (cfg.flow \in {"zero", "zeromix"}) => (told.S # "code")
+ReceiverTellsOnlyWhenAllocated == (told.R # "-") => cfg.flow = "ralloc"
+CodeBeforeAnything == \A p \in {"S", "R"} : (pc[p] = "code") => (sent[p] = <<>> /\ out[p] = "-" /\ prompted[p] = "-")
 \* both commands come to an end
 Terminates == <>(out.S # "-" /\ out.R # "-")
 ====
